@@ -385,6 +385,7 @@ inductive Op where
   | setRule (r : Id) (rule : Option G)   -- reaction.gene_reaction_rule = "…" (the text parsed by `GPRM.fromString`), outside a context
   | removeRxns (rs : List Id) (orphans : Bool)   -- remove_reactions([…]): identifiers that are not in the model are skipped with a warning
   | imul (r : Id) (k : Rat)
+  | removeGenes (gs : List Id) (rr : Bool)      -- cobra.manipulation.remove_genes(model, gs, remove_reactions=rr), outside a context
   | addRxnR (r : Id) (lb ub : EB) (ps : List (Id × Rat)) (rule : Option G)   -- add_reactions([R]) for a new reaction that carries a gene rule, outside a context
   | addBoundary (m : Id) (t : BType) (external : Bool) (dlb dub : EB)   -- model.add_boundary(metabolite, type); `external`: the metabolite sits in the external compartment; `dlb`, `dub`: the configured default bounds
   | observe                          -- calls that only look: `slim_optimize()`, `reaction.copy()`, `a + b` / `a - b` on reactions of the model
@@ -548,6 +549,24 @@ def removeRxns (orphans : Bool) : List Id → Sys → Sys
     if y.s.hasR r then removeRxns orphans rs (if orphans then removeRxnO y r else removeRxn y r)
     else removeRxns orphans rs y
 
+/-- the rule `_GeneRemover` leaves for reaction `r` -/
+def prunedRule (s : St) (ks : Id → Bool) (r : Id) : Option G :=
+  match s.rule r with
+  | some t => if s.hasR r then GPRM.remove ks t else some t
+  | none => none
+
+/-- `remove_genes(model, genes, remove_reactions=False)` on the content: every reaction of the model gets the rule the remover leaves, its gene set
+and the back-references of the genes follow the new rule (`update_genes_from_gpr`), and the genes leave `model.genes` -/
+def removeGenesRaw (s : St) (ks : Id → Bool) : St :=
+  { s with rule := prunedRule s ks,
+           rg := fun r g => if s.hasR r then (genesOpt (prunedRule s ks r)).contains g else s.rg r g,
+           hasG := fun g => s.hasG g && !ks g,
+           gr := fun g r => if s.hasR r then (genesOpt (prunedRule s ks r)).contains g else s.gr g r }
+
+/-- the reactions `remove_genes(…, remove_reactions=True)` removes: those with a rule that is false without the genes -/
+def geneTargets (s : St) (ks : Id → Bool) : List Id :=
+  s.univR.filter (fun r => s.hasR r && (match s.rule r with | some t => !GPRM.eval ks t | none => false))
+
 /-- `reaction *= k` -/
 def imul (y : Sys) (r : Id) (k : Rat) : Sys × Option Err :=
   let y1 : Sys := { y with s := scaleSt y.s r k }
@@ -599,6 +618,14 @@ def apply (y : Sys) : Op → Sys × Option Err
     if !y.s.hasR r then (y, some .key)
     else if k = 0 then (y, some .type)                 -- outside the modelled fragment (never sent by the harness)
     else imul y r k
+  | .removeGenes gs rr =>
+    if !gs.all y.s.hasG then (y, some .key)              -- `model.genes.get_by_id` of an unknown gene
+    else if inCtx y then (y, some .type)                 -- inside a context: outside the modelled fragment (never sent by the harness)
+    else
+      let ks : Id → Bool := fun g => gs.contains g
+      -- reactions whose rule is false without the genes leave the model (`model.remove_reactions(target_reactions)`); the others get the pruned rule
+      let y1 := if rr then removeRxns false (geneTargets y.s ks) y else y
+      ({ y1 with s := removeGenesRaw y1.s ks }, none)
   | .addRxnR r lb ub ps rule =>
     -- as `addRxn`; the genes of the rule the model lacks join `model.genes`, the others are the model's own objects from now on
     -- (`reaction._dissociate_gene(gene)`, `reaction._associate_gene(model_gene)`): the effect of `setRuleRaw` on the freshly added reaction
